@@ -165,6 +165,11 @@ func (qfs QUICFrames) buildAbsolute(fullCrypto []byte) ([]byte, error) {
 		if err != nil {
 			return nil, err
 		}
+		if start == end {
+			// The range is empty for this ClientHello (e.g. a middle range between a fixed head
+			// and a fixed tail that already cover everything): there is nothing to frame.
+			continue
+		}
 		payload = append(payload, 0x06) // CRYPTO frame type
 		payload = quicvarint.Append(payload, uint64(start))
 		payload = quicvarint.Append(payload, uint64(end-start))
